@@ -104,8 +104,11 @@ def data_stmt(draw):
     return ".db %d" % draw(_st.integers(0, 255))
 
 
+FAR_ORGS = [0x10000, 0x20000, 0x2c000, 0x30000, 0x50000, 0x100000]
+
+
 @_st.composite
-def structured_program(draw, pools, cpus=None, align_data=True, repeats=True):
+def structured_program(draw, pools, cpus=None, align_data=True, repeats=True, far_orgs=False):
     cpu = draw(_st.sampled_from([c for c in (cpus or GEN_CPUS) if pools.get(c)]))
     pool = pools[cpu]
     p = Prog(cpu)
@@ -119,6 +122,15 @@ def structured_program(draw, pools, cpus=None, align_data=True, repeats=True):
     nmac = 0
     macros = []
     n = draw(_st.integers(2, 14))
+    # far_orgs: later segments at ascending 64 KiB / 16 KiB aligned addresses (whole unallocated pages in between),
+    # each opened by a data statement or an instruction placed exactly at the aligned address
+    far_at = {}
+    if far_orgs and draw(_st.sampled_from([True, True, False])):
+        k_far = draw(_st.integers(1, 3))
+        idxs = sorted(draw(_st.lists(_st.integers(0, len(FAR_ORGS) - 1), min_size=k_far, max_size=k_far, unique=True)))
+        poss = sorted(draw(_st.lists(_st.integers(0, n - 1), min_size=k_far, max_size=k_far, unique=True))) if n >= k_far \
+            else list(range(n))
+        far_at = dict(zip(poss, idxs))
 
     def body(ctx, k):
         out = []
@@ -130,7 +142,13 @@ def structured_program(draw, pools, cpus=None, align_data=True, repeats=True):
                 out.append("  " + draw(_st.sampled_from(pool)))
         return out
 
-    for _ in range(n):
+    for pos_ in range(n):
+        if pos_ in far_at:
+            p.add(".org 0x%x" % FAR_ORGS[far_at[pos_]], "top")
+            if draw(_st.booleans()):
+                p.add("  " + draw(data_stmt()), "top")
+                for a_ in al:
+                    p.add(a_, "top")
         c = draw(_st.integers(0, 13))
         if c <= 4:
             p.add("  " + draw(_st.sampled_from(pool)), "top")
